@@ -129,14 +129,32 @@ def regroupPiece (cs : List RawComp) (id : Nat) : List RawComp :=
 
 theorem regroup_eq (cs : List RawComp) : regroup cs = allIds.flatMap (regroupPiece cs) := rfl
 
-theorem regroupOps_cons_ne (id : Nat) (c : RawComp) (t : List RawComp) (h : c.ty ≠ id) :
-    regroupOps id (c :: t) = regroupOps id t := by
+theorem opsOf_ne (id : Nat) (c : RawComp) (h : c.ty ≠ id) : opsOf id c = [] := by
   cases c with
-  | prefix4 _ _ _ => simp [regroupOps]
-  | prefix6 _ _ _ _ => simp [regroupOps]
+  | prefix4 _ _ _ => rfl
+  | prefix6 _ _ _ _ => rfl
   | ops ty ts =>
     simp only [RawComp.ty] at h
-    simp [regroupOps, h]
+    simp [opsOf, h]
+
+theorem regroupOps_cons_ne (id : Nat) (c : RawComp) (t : List RawComp) (h : c.ty ≠ id) :
+    regroupOps id (c :: t) = regroupOps id t := by
+  simp [regroupOps, opsOf_ne id c h]
+
+theorem flatMap_clearHead_none (id : Nat) (t : List RawComp) (h : ∀ x ∈ t, x.ty ≠ id) :
+    t.flatMap (fun d => clearHead (opsOf id d)) = [] := by
+  induction t with
+  | nil => rfl
+  | cons x xs ih =>
+    simp only [List.flatMap_cons, opsOf_ne id x (h x List.mem_cons_self), clearHead, List.nil_append]
+    exact ih (fun y hy => h y (List.mem_cons_of_mem _ hy))
+
+/-- one occurrence of `id`, nothing of that type after it: its operators, untouched -/
+theorem regroupOps_single (id : Nat) (ts : List RawTerm) (t : List RawComp) (hne : ts ≠ [])
+    (h : ∀ x ∈ t, x.ty ≠ id) : regroupOps id (.ops id ts :: t) = ts := by
+  have he : (opsOf id (.ops id ts)) = ts := by simp [opsOf]
+  have hemp : ts.isEmpty = false := by cases ts with | nil => exact absurd rfl hne | cons _ _ => rfl
+  simp only [regroupOps, he, hemp, Bool.false_eq_true, if_false, flatMap_clearHead_none id t h, List.append_nil]
 
 theorem regroupPiece_cons_ne (id : Nat) (c : RawComp) (t : List RawComp) (h : c.ty ≠ id) :
     regroupPiece (c :: t) id = regroupPiece t id := by
@@ -234,15 +252,7 @@ theorem regroup_range (v6 : Bool) (p : Nat → Nat → Option Nat) (n lo : Nat) 
             simp [List.filter_cons, hc, ht]
           · rw [if_neg h12]
             obtain ⟨ts, hcts, hne⟩ := (shape_facts v6 p c (hs c List.mem_cons_self)).2.2 (by rw [he]; exact h12)
-            have hro : regroupOps (lo + 1) t = [] := by
-              have := regroupPiece_none (lo + 1) t hnone
-              simp only [regroupPiece, if_neg h12] at this
-              by_cases hemp : (regroupOps (lo + 1) t).isEmpty
-              · simpa using hemp
-              · simp [hemp] at this
-            rw [hcts]
-            simp only [regroupOps, List.flatMap_cons, he, if_true] at hro ⊢
-            rw [hro, List.append_nil]
+            rw [hcts, he, regroupOps_single (lo + 1) ts t hne hnone]
             have : ts.isEmpty = false := by cases ts with | nil => exact absurd rfl hne | cons _ _ => rfl
             simp [this]
         have hrest : (List.range' (lo + 1 + 1) n).flatMap (regroupPiece (c :: t)) = t := by
